@@ -329,6 +329,9 @@ func (p *c05) RunCase(ctx *runner.Ctx) runner.CaseResult {
 	default:
 		op = adapt.Op{Kind: adapt.OpDelete, Table: spec.Name, Key: tkey, RetOld: r.Intn(2) == 0}
 	}
+	if op.Kind != adapt.OpUpdate {
+		op.RetCCF = adapter == "v2" && r.Intn(2) == 0 // "when requested, the failure carries the unchanged stored item": PutItem and DeleteItem too
+	}
 	rr := refmodel.RenderOpts{}
 	if r.Intn(3) == 0 {
 		rr.Rng = r
